@@ -369,6 +369,44 @@ def run(world, rep, tier, only=None):
 
     expand_keeps_size(prog, rep, "C09.s")
 
+    # ------------------------------------------------------------------ C09.t an indirect block is released only when it was found empty
+    # ind_punch() recurses into an indirect block and frees the block itself afterwards; between the two stands the
+    # test that nothing is left in it.  A range that ends inside the block leaves live pointers behind: freeing the
+    # block then loses every byte after the hole.
+    ip = prog.fn("ind_punch", "lib/ext2fs/punch.c")
+    rec = calls_to(ip, "ind_punch")
+    frees = [c for c in calls_to(ip, "ext2fs_block_alloc_stats", "ext2fs_block_alloc_stats2") if T.const(arg(c, 2)) == -1]
+    zt = {}
+    for bid in ip.blocks:
+        lit = ip.literal(bid)
+        if lit and any(cc.get("fn") == "check_zero_block" for cc in T.calls(lit[0])):
+            zt[ip.block_end(bid)] = lit[1]
+    rep.floor("C09.t recursion / emptiness test / release in ind_punch", min(len(rec), len(zt), len(frees)), 1)
+
+    def in_recursion(n, si, m, _f=ip):
+        # on the paths looked at the recursion has happened, so `level > 0` holds (level is never assigned)
+        lit = _f.literal(n.bid)
+        if lit and "level" in T.vars_in(lit[0]) and isinstance(T.strip(lit[0]), dict) and T.strip(lit[0]).get("k") == "b":
+            a = T.strip(lit[0])
+            truth = lit[1] if si == 0 else (not lit[1])
+            if a.get("o") == ">" and T.const(a.get("r")) == 0:
+                return truth
+            if a.get("o") == "==" and T.const(a.get("r")) == 0:
+                return not truth
+        return True
+    for i, r_ in enumerate(rec):
+        # (a) no way from the recursion to the release round the test
+        r1 = ip.reach(ip.after(r_), avoid=list(zt) + rec, edge_ok=in_recursion)
+        # (b) from the "not empty" outcome no way to the release without a new recursion
+        starts = []
+        for end_, pos in zt.items():
+            starts += [m for (m, si) in ip.succ(end_) if (si == 0) != pos]     # edge on which check_zero_block() is false
+        r2 = ip.reach(starts, avoid=rec, edge_ok=in_recursion) if starts else set()
+        bad = [f_ for f_ in frees if f_ in r1 or f_ in r2]
+        rep.ob("C09.t", site(ip, "indirect block released only after check_zero_block() found it empty#%d" % i), not bad,
+               "every path from the recursive ind_punch() to ext2fs_block_alloc_stats(…, -1) passes check_zero_block() and takes "
+               "its `empty` outcome: %s" % [b.line for b in bad])
+
 
 def expand_keeps_size(prog, rep, RULE):
     """changing the storage form of a regular file (inline area -> blocks) does not touch its length: the routine that
